@@ -267,6 +267,9 @@ func (s *jsession) call(f func()) {
 	s.wait(done)
 }
 
+// how long a release may stay untaken before it is reported
+var relWait = 5 * time.Second
+
 func (s *jsession) wait(done chan struct{}) {
 	for {
 		select {
@@ -391,7 +394,18 @@ func (s *jsession) exec(op string) string {
 		done := s.busy
 		s.busy = nil
 		s.st = "run"
-		s.release()
+		// the discipline is waiting for this signal (it delivered a slice in no-copy mode and
+		// produces nothing further before the release): the signal is taken at once
+		relDone := make(chan struct{})
+		go func() { s.release(); close(relDone) }()
+		select {
+		case <-relDone:
+		case <-time.After(relWait):
+			relWait = 100 * time.Millisecond // the finding is made: do not spend 5 s on every further session
+			s.fail("C08 no-copy: the release of the delivered slice %v was not taken within 5s: the discipline is not waiting for it where it has to - it went on although the consumer still owns the slice (further output can be produced before the release)", s.heldCopy)
+			s.st = "hang"
+			return s.snapshot()
+		}
 		s.wait(done)
 		if s.closed && s.st == "run" {
 			s.st = "done"
